@@ -324,6 +324,13 @@ def is_fragile(desc, row, o):
                 for d, _ in rb:
                     if d == d and d != t and abs(d - t) < 1e-9:
                         return True
+    # near-ties between the degrees of a Highest / Lowest block (general family): the order may go either way
+    if o[0] != "error" and not desc["exact"]:
+        for b, rb in zip(desc["blocks"], o[1]):
+            if b["activation"]["cls"] in ("Highest", "Lowest"):
+                ds = sorted(d for d, _ in rb if d == d and d > 0)
+                if any(y - x < 1e-9 for x, y in zip(ds, ds[1:])):
+                    return True
     # Tsukamoto inverses are singular at degree 0 and at the term's height (log 0, 1/0, sqrt of a cancellation)
     if o[0] != "error":
         for ov, od in zip(o[0], desc["outputs"]):
